@@ -109,7 +109,8 @@ sPivotGrowth(int_t ncols, SuperMatrix *A, int_t *perm_c,
 		rpg = SUPERLU_MIN( rpg, maxaj / maxuj );
 	}
 	
-	if ( j >= ncols ) break;
+	/* no early exit here: supernode numbers are handed out by the threads
+	   in any order, so later supernodes may hold earlier columns */
     }
 
     SUPERLU_FREE(inv_perm_c);
